@@ -550,14 +550,6 @@ Proof.
       destruct (is_doner t i) eqn:E; [left; rewrite Hregd; apply Hdone; auto|right; lia].
 Qed.
 
-Lemma cnt_le : forall (p q : instr -> bool) thr, (forall i, p i = true -> q i = true) -> cnt p thr <= cnt q thr.
-Proof.
-  intros p q thr H. induction thr as [|[n prog] thr]; simpl; auto.
-  assert (cntl p prog <= cntl q prog).
-  { unfold cntl. induction prog; simpl; auto. destruct (p a) eqn:E; [rewrite (H _ E); simpl; lia|destruct (q a); simpl; lia]. }
-  lia.
-Qed.
-
 Lemma pi_gsrc : forall t i, pi t i = true -> gsrc t i = true.
 Proof. destruct i; simpl; intros; auto; discriminate. Qed.
 Lemma ps_gsrc : forall t i, ps t i = true -> gsrc t i = true.
